@@ -181,6 +181,22 @@ def scenarios(draw):
                                           jitter_p=0.5, indel_p=0.35, mapq=(20, 60))
                 tr["cls"] = "W"
                 tr["src"] = t["id"]
+                if tr.get("polya") and src.bool(0.12):
+                    # the tail of the molecule aligned as a block of its own (T-rich block in front of a minus-strand
+                    # read, A-rich block behind a plus-strand read) instead of being soft-clipped
+                    ln, gap = src.int(18, 40), src.int(120, 500)
+                    cg = [list(x) for x in r["cg"]]
+                    if g["strand"] == "-" and cg and cg[0][0] == 4 and r["p"] - gap - ln > 5:
+                        r["cg"] = [[0, ln], [3, gap]] + cg[1:]
+                        r.pop("sl", None)
+                        r["p"] -= gap + ln
+                        r["b0seq"] = "T"
+                        tr["aligned_tail"] = True
+                    elif g["strand"] == "+" and cg and cg[-1][0] == 4:
+                        r["cg"] = cg[:-1] + [[3, gap], [0, ln]]
+                        r.pop("sr", None)
+                        r["bNseq"] = "A"
+                        tr["aligned_tail"] = True
             else:
                 info = {}
                 ch = far_chain(src, t["exons"], sites[g["chr"]], g["strand"], info)
